@@ -215,11 +215,33 @@ class Report(object):
         known = load_known(self.prop)
         unknown = []
         os.makedirs(REPLAYS, exist_ok=True)
+        for f in os.listdir(REPLAYS):
+            if f.startswith(self.prop + '-'):
+                os.unlink(os.path.join(REPLAYS, f))
         seen_known = set()
-        n = 0
+        # group messages of one failing execution
+        groups = collections.OrderedDict()
         for v in self.violations:
-            scn = v.pop('_scn', None)
+            g = groups.setdefault((v['scenario'], tuple(v['path'])), v)
+            if g is not v:
+                g['message'] += '\n' + v['message']
+        cands = []
+        for v in groups.values():
             k = match_known(known, v)
+            if k is not None:
+                # known findings are confirmed too, but at most one replay
+                # per finding
+                if k['what'] in seen_known:
+                    self.known_hits.append(k['what'])
+                    continue
+                seen_known.add(k['what'])
+            cands.append((v, k))
+        max_confirm = int(os.environ.get('VERIF_MAX_CONFIRM', '6'))
+        self.stats['violating_executions'] = len(groups)
+        n = 0
+        todo = []
+        for v, k in cands[:max_confirm]:
+            scn = v.pop('_scn', None)
             n += 1
             path = os.path.join(REPLAYS, '%s-%d.json' % (self.prop, n))
             doc = {'property': self.prop, 'scenario': v['scenario'],
@@ -229,8 +251,16 @@ class Report(object):
                    'assertion': v['message']}
             with open(path, 'w') as f:
                 json.dump(doc, f, indent=1, default=str)
-            if confirm and scn is not None and doc['spec'] is not None:
-                ok, why = confirm_replay(self.prop, path)
+            todo.append((v, k, path))
+        procs = []
+        for v, k, path in todo:
+            if confirm:
+                procs.append(start_confirm(self.prop, path))
+            else:
+                procs.append(None)
+        for (v, k, path), pr in zip(todo, procs):
+            if pr is not None:
+                ok, why = finish_confirm(pr)
                 if not ok:
                     self.harness_errors.append(
                         {'scenario': v['scenario'],
@@ -238,13 +268,11 @@ class Report(object):
                                 + why, 'replay': path})
                     continue
             if k is not None:
-                if k['what'] not in seen_known:
-                    seen_known.add(k['what'])
-                    print('KNOWN-FINDING: property=%s %s' %
-                          (self.prop, k['what']))
+                print('KNOWN-FINDING: property=%s %s' % (self.prop, k['what']))
                 self.known_hits.append(k['what'])
                 continue
             unknown.append((v, path))
+        self.stats['violations_not_replayed'] = max(0, len(cands) - len(todo))
         cov = {
             'states': max(1, self.stats['states']),
             'transitions': max(1, self.stats['transitions']),
@@ -292,19 +320,24 @@ class Report(object):
         return 1 if unknown else 0
 
 
-def confirm_replay(prop, path):
+def start_confirm(prop, path):
     """Re-run the recorded schedule with the plain replayer in a fresh
-    process; True if the same oracle fails again."""
+    process."""
+    return subprocess.Popen(
+        [sys.executable, '-m', 'checks.run', prop, '--replay', path,
+         '--quiet'], cwd=ROOT, stdout=subprocess.PIPE,
+        stderr=subprocess.PIPE, text=True)
+
+
+def finish_confirm(p):
     try:
-        p = subprocess.run(
-            [sys.executable, '-m', 'checks.run', prop, '--replay', path,
-             '--quiet'], cwd=ROOT, capture_output=True, text=True,
-            timeout=600)
+        out, err = p.communicate(timeout=600)
     except subprocess.TimeoutExpired:
+        p.kill()
         return False, 'replay timed out'
-    if p.returncode == 1 and 'REPLAY-VIOLATION' in p.stdout:
+    if p.returncode == 1 and 'REPLAY-VIOLATION' in out:
         return True, ''
-    return False, (p.stdout[-400:] + p.stderr[-400:])
+    return False, (out[-400:] + err[-400:])
 
 
 def build_scenario(spec):
@@ -314,8 +347,17 @@ def build_scenario(spec):
 
 
 def run_replay(prop, path, quiet=False):
-    from mc import explore
     doc = json.load(open(path))
+    if 'doc' in doc and 'spec' not in doc:
+        mod = importlib.import_module('checks.%s' % prop.lower())
+        bad, msg = mod.replay(doc['doc'])
+        if bad:
+            print('REPLAY-VIOLATION property=%s' % prop)
+            print('  ', str(msg)[:800])
+            return 1
+        print('REPLAY-OK (no violation)')
+        return 0
+    from mc import explore
     scn = build_scenario(doc['spec'])
     r = explore.replay(scn, doc['choices'])
     if not quiet:
@@ -331,3 +373,134 @@ def run_replay(prop, path, quiet=False):
         return 1
     print('REPLAY-OK (no violation)')
     return 0
+
+
+# ---------------------------------------------------------------------------
+# Sequential explorers (OpMC / InputMC): exhaustive enumeration of operation
+# sequences or inputs against a reference model; no interleavings.
+class SimpleReport(object):
+    """Evidence + verdict for checks that enumerate cases themselves.
+
+    rep = SimpleReport('C19', tier, level='exploration')
+    rep.case(key, nontrivial=True)          # one evaluated case
+    rep.state(h); rep.transition()          # for OpMC (model_checking level)
+    rep.sample(obj)
+    rep.violation(case_id, message, doc)    # doc: what `replay(doc)` needs
+    sys.exit(rep.finish(rule, exhaustive=True))
+    """
+
+    def __init__(self, prop, tier, level='exploration'):
+        self.prop, self.tier, self.level = prop, tier, level
+        self.t0 = time.time()
+        self.evaluations = 0
+        self.distinct = set()
+        self.states = set()
+        self.transitions = 0
+        self.validated = 0
+        self.samples = []
+        self.viol = []
+        self.assumptions = []
+        self.extra = {}
+        self.counters = collections.Counter()
+
+    def case(self, key=None, nontrivial=True):
+        self.evaluations += 1
+        if key is not None and nontrivial:
+            self.distinct.add(key if isinstance(key, (str, bytes, int))
+                              else json.dumps(key, sort_keys=True,
+                                              default=str))
+
+    def state(self, h):
+        self.states.add(h)
+
+    def transition(self, n=1):
+        self.transitions += n
+
+    def sample(self, obj, limit=5):
+        if len(self.samples) < limit:
+            self.samples.append(obj)
+
+    def violation(self, case_id, message, doc):
+        self.viol.append({'scenario': case_id, 'message': message,
+                          'doc': doc})
+
+    def finish(self, rule, exhaustive=False, confirm=True):
+        known = load_known(self.prop)
+        os.makedirs(REPLAYS, exist_ok=True)
+        for f in os.listdir(REPLAYS):
+            if f.startswith(self.prop + '-'):
+                os.unlink(os.path.join(REPLAYS, f))
+        unknown, known_hits, harness = [], [], []
+        seen_known = set()
+        cands = []
+        for v in self.viol:
+            k = match_known(known, v)
+            if k is not None:
+                known_hits.append(k['what'])
+                if k['what'] in seen_known:
+                    continue
+                seen_known.add(k['what'])
+            cands.append((v, k))
+        max_confirm = int(os.environ.get('VERIF_MAX_CONFIRM', '6'))
+        # unknown violations first
+        cands.sort(key=lambda x: x[1] is not None)
+        todo = []
+        for n, (v, k) in enumerate(cands[:max_confirm + len(seen_known)], 1):
+            path = os.path.join(REPLAYS, '%s-%d.json' % (self.prop, n))
+            doc = {'property': self.prop, 'scenario': v['scenario'],
+                   'assertion': v['message'], 'doc': v['doc']}
+            with open(path, 'w') as f:
+                json.dump(doc, f, indent=1, default=str)
+            todo.append((v, k, path,
+                         start_confirm(self.prop, path) if confirm else None))
+        for v, k, path, pr in todo:
+            if pr is not None:
+                ok, why = finish_confirm(pr)
+                if not ok:
+                    harness.append({'scenario': v['scenario'], 'replay': path,
+                                    'why': 'not reproduced by replay: ' + why})
+                    continue
+            if k is not None:
+                print('KNOWN-FINDING: property=%s %s' % (self.prop, k['what']))
+                continue
+            unknown.append((v, path))
+        cov = {
+            'evaluations': max(self.evaluations, 1),
+            'distinct_nontrivial': len(self.distinct),
+            'rule': rule,
+            'samples': self.samples or [{'note': 'none'}],
+            'exhaustive': bool(exhaustive and not harness),
+            'counters': dict(self.counters),
+            'violating_cases': len(self.viol),
+            'violations_not_replayed': max(0, len(cands) - len(todo)),
+            'known_findings_hit': sorted(set(known_hits)),
+            'harness_errors': harness[:10],
+        }
+        if self.level == 'model_checking':
+            cov['states'] = max(1, len(self.states))
+            cov['transitions'] = max(1, self.transitions)
+            cov['traces_validated_against_impl'] = self.validated
+        cov.update(self.extra)
+        ev = {'property_id': self.prop, 'tier': self.tier, 'seed': seed(),
+              'level': self.level, 'coverage': cov,
+              'assumptions': self.assumptions,
+              'wall_s': round(time.time() - self.t0, 1),
+              'violations': len(unknown)}
+        os.makedirs(EVID, exist_ok=True)
+        tmp = os.path.join(EVID, '.%s.json.tmp' % self.prop)
+        with open(tmp, 'w') as f:
+            json.dump(ev, f, indent=1, default=str)
+        os.replace(tmp, os.path.join(EVID, '%s.json' % self.prop))
+        for v, path in unknown:
+            print('VIOLATION property=%s replay=%s' % (self.prop, path))
+            print('  case=%s' % v['scenario'])
+            print('  %s' % v['message'][:600])
+        if harness:
+            print('HARNESS-NOTE property=%s %d diagnostics (see evidence)'
+                  % (self.prop, len(harness)), file=sys.stderr)
+        print('%s %s: evaluations=%d distinct=%d states=%d transitions=%d '
+              'exhaustive=%s wall=%.0fs violations=%d' % (
+                  self.prop, self.tier, self.evaluations, len(self.distinct),
+                  len(self.states), self.transitions, cov['exhaustive'],
+                  time.time() - self.t0, len(unknown)))
+        return 1 if unknown else 0
